@@ -25,14 +25,21 @@
        object a source lists and serves is handed or stored with its record by a remaining
        shard, if its ID carries one header everywhere, no remaining shard is in a degraded
        read-write mode and none stores the tombstone's data without its record).
-       NOT proved: equality of the LOCK status (it needs, on top, monotonicity of the garbage
-       status of the lock object through re-puts; not finished); it is checked on the real engine
-       by the correspondence run only (class c19_status_good / deviation 2 of Engine/EvacCheck.v). *)
+       The "not lost" direction for the LOCK status: C19_lock_status_partial (Engine/EvacLock.v): a lock
+       object L for x a source lists and serves is handed or, afterwards, a remaining shard stores it
+       with its record and reports x as locked (Model.locked = objectLocked), in the class PT and if
+       the garbage status of L is "available" where it matters (no shard stores a tombstone for L,
+       no remaining shard default-marks L -- proved to be kept through all re-puts) and the lock is
+       not expired.  NOT proved: the "not created" direction for the lock status (every lock RECORD
+       afterwards was a record before: lock_record_not_created in Engine/EvacStatus.v, but a re-put
+       may in principle change the garbage status of a lock object on the receiving shard), hence
+       not the equality; it is checked on the real engine by the correspondence run only
+       (class c19_status_good / deviation 2 of Engine/EvacCheck.v). *)
 From Coq Require Import List NArith Bool Arith Permutation.
 Import ListNotations.
 From NV Require Import Engine.Model Engine.Spec Engine.Check Engine.Evac Engine.EvacSpec
                        Engine.EvacProofs Engine.EvacPreserved Engine.EvacStatus Engine.EvacTomb
-                       Engine.EvacWitness.
+                       Engine.EvacLock Engine.EvacWitness.
 Local Open Scope N_scope.
 
 (* the paged listing (page size regenerated from the code) is the raw-ordered list of the IDs
@@ -125,6 +132,27 @@ Theorem C19_tombstone_kept_partial : forall t e srcs ign fh rank ords T x r b,
   exists j s', is_src srcs j = false /\ nth_error (ev_st x') j = Some s' /\ tombstoned s' x = true.
 Proof. exact tombstone_kept_partial. Qed.
 
+(* no lock status is lost for a lock object that can be moved.  Premises: PT (as above, for the
+   lock object L with record r); no shard stores a tombstone for L and no remaining shard carries
+   a default garbage mark for L (so L is "available" for objectLocked; the proof shows that the
+   re-puts keep it so); the lock is not expired at the epoch e (e = 0: expiration ignored).
+   Conclusion: L went to the fault handler, or a remaining shard reports x as locked afterwards. *)
+Theorem C19_lock_status_partial : forall t e srcs ign fh rank ords L x r b st x' i s m,
+  mk r = KLock x ->
+  PT srcs L r st ->
+  tombstonedb st L = false ->
+  (forall j s0, is_src srcs j = false -> nth_error st j = Some s0 -> lookup L (s_garb s0) <> Some MDefault) ->
+  (0 <? e) && rec_expired e r = false ->
+  evacuate t e srcs ign fh rank ords st = (EvOk, x') ->
+  In i srcs -> nth_error st i = Some s -> lookup L (s_meta s) = Some r ->
+  sh_get s e L false = (SFound b, m) -> listed s L = true -> In L rank ->
+  In L (ev_handed x') \/
+  exists j s', is_src srcs j = false /\ nth_error (ev_st x') j = Some s' /\ locked s' e x = true.
+Proof.
+  intros t e srcs ign fh rank ords L x r b st x' i s m Hk HP Hnt.
+  exact (lock_kept_partial t e srcs ign fh rank ords L r b st Hnt x x' i s m Hk HP).
+Qed.
+
 (* the status equality fails: a tombstone is lost and Evacuate reports success *)
 Theorem C19_status_unchanged_refuted :
   exists u n ops srcs rank ords x,
@@ -168,8 +196,35 @@ Proof.
   - vm_compute. eexists. repeat split.
 Qed.
 
+(* non-vacuity of C19_lock_status_partial: in the same engine the lock object 2 (for object 0)
+   satisfies the premises and is listed and served by source shard 0 *)
+Example C19_lock_example :
+  PT [1;0]%nat 2 (MRec (KLock 0) None) (shards en_ok) /\
+  tombstonedb (shards en_ok) 2 = false /\
+  (forall j s0, is_src [1;0]%nat j = false -> nth_error (shards en_ok) j = Some s0 -> lookup 2 (s_garb s0) <> Some MDefault) /\
+  (0 <? epoch en_ok) && rec_expired (epoch en_ok) (MRec (KLock 0) None) = false /\
+  In 2 [3; 0; 4; 1; 2] /\
+  exists s bb, nth_error (shards en_ok) 0 = Some s /\ lookup 2 (s_meta s) = Some (MRec (KLock 0) None) /\
+            sh_get s (epoch en_ok) 2 false = (SFound bb, false) /\ listed s 2 = true.
+Proof.
+  split; [|split; [vm_compute; reflexivity|split; [|split; [vm_compute; reflexivity|split; [simpl; auto 6|]]]]].
+  - remember (shards en_ok) as st eqn:E. vm_compute in E. subst st. split.
+    + intros j s H r' Hl.
+      destruct j as [|[|[|[|j]]]]; simpl in H; try (destruct j; discriminate); inversion H; subst; clear H;
+        vm_compute in Hl; inversion Hl; reflexivity.
+    + intros j s Hj H.
+      destruct j as [|[|[|[|j]]]]; simpl in H; try (destruct j; discriminate); inversion H; subst; clear H;
+        try (vm_compute in Hj; discriminate); split; vm_compute; auto; intros; discriminate.
+  - remember (shards en_ok) as st eqn:E. vm_compute in E. subst st.
+    intros j s Hj H.
+    destruct j as [|[|[|[|j]]]]; simpl in H; try (destruct j; discriminate); inversion H; subst; clear H;
+      vm_compute; intros; discriminate.
+  - vm_compute. eexists. eexists. repeat split.
+Qed.
+
 Print Assumptions C19_sources_unchanged.
 Print Assumptions C19_moved.
 Print Assumptions C19_preserved_partial.
 Print Assumptions C19_tombstone_not_created.
 Print Assumptions C19_tombstone_kept_partial.
+Print Assumptions C19_lock_status_partial.
